@@ -110,20 +110,80 @@ void vb_would_block(void);
 
 /* ---- external dependencies: declared only; assumed contracts live in contracts/extern_assumed.h,
  *      native bindings in vb_native_ext.c */
-int64_t vb_fstream_gcount(struct vb_fstream *f);
-void vb_fstream_read(struct vb_fstream *f, char *s, int64_t n);
-int64_t vb_fstream_tellg(struct vb_fstream *f);
-void vb_fstream_seekg(struct vb_fstream *f, int64_t off, int way);
-void vb_fstream_write(struct vb_fstream *f, const char *s, int64_t n);
-int64_t vb_fstream_tellp(struct vb_fstream *f);
-_Bool vb_fstream_good(struct vb_fstream *f);
-_Bool vb_fstream_eof(struct vb_fstream *f);
-void vb_fstream_open(struct vb_fstream *f, const char *filename, int mode);
-_Bool vb_fstream_is_open(struct vb_fstream *f);
-void vb_fstream_close(struct vb_fstream *f);
-void vb_fstream_seekp(struct vb_fstream *f, int64_t pos);
-unsigned long vb_zlib_compressBound(unsigned long sourceLen);
-int vb_zlib_uncompress(uint8_t *dest, unsigned long *destLen, const uint8_t *source, unsigned long sourceLen);
-int vb_zlib_compress2(uint8_t *dest, unsigned long *destLen, const uint8_t *source, unsigned long sourceLen, int level);
+#ifndef CONTRACT_vb_fstream_gcount
+#define CONTRACT_vb_fstream_gcount
+#endif
+int64_t vb_fstream_gcount(struct vb_fstream *f)
+CONTRACT_vb_fstream_gcount;
+#ifndef CONTRACT_vb_fstream_read
+#define CONTRACT_vb_fstream_read
+#endif
+void vb_fstream_read(struct vb_fstream *f, char *s, int64_t n)
+CONTRACT_vb_fstream_read;
+#ifndef CONTRACT_vb_fstream_tellg
+#define CONTRACT_vb_fstream_tellg
+#endif
+int64_t vb_fstream_tellg(struct vb_fstream *f)
+CONTRACT_vb_fstream_tellg;
+#ifndef CONTRACT_vb_fstream_seekg
+#define CONTRACT_vb_fstream_seekg
+#endif
+void vb_fstream_seekg(struct vb_fstream *f, int64_t off, int way)
+CONTRACT_vb_fstream_seekg;
+#ifndef CONTRACT_vb_fstream_write
+#define CONTRACT_vb_fstream_write
+#endif
+void vb_fstream_write(struct vb_fstream *f, const char *s, int64_t n)
+CONTRACT_vb_fstream_write;
+#ifndef CONTRACT_vb_fstream_tellp
+#define CONTRACT_vb_fstream_tellp
+#endif
+int64_t vb_fstream_tellp(struct vb_fstream *f)
+CONTRACT_vb_fstream_tellp;
+#ifndef CONTRACT_vb_fstream_good
+#define CONTRACT_vb_fstream_good
+#endif
+_Bool vb_fstream_good(struct vb_fstream *f)
+CONTRACT_vb_fstream_good;
+#ifndef CONTRACT_vb_fstream_eof
+#define CONTRACT_vb_fstream_eof
+#endif
+_Bool vb_fstream_eof(struct vb_fstream *f)
+CONTRACT_vb_fstream_eof;
+#ifndef CONTRACT_vb_fstream_open
+#define CONTRACT_vb_fstream_open
+#endif
+void vb_fstream_open(struct vb_fstream *f, const char *filename, int mode)
+CONTRACT_vb_fstream_open;
+#ifndef CONTRACT_vb_fstream_is_open
+#define CONTRACT_vb_fstream_is_open
+#endif
+_Bool vb_fstream_is_open(struct vb_fstream *f)
+CONTRACT_vb_fstream_is_open;
+#ifndef CONTRACT_vb_fstream_close
+#define CONTRACT_vb_fstream_close
+#endif
+void vb_fstream_close(struct vb_fstream *f)
+CONTRACT_vb_fstream_close;
+#ifndef CONTRACT_vb_fstream_seekp
+#define CONTRACT_vb_fstream_seekp
+#endif
+void vb_fstream_seekp(struct vb_fstream *f, int64_t pos)
+CONTRACT_vb_fstream_seekp;
+#ifndef CONTRACT_vb_zlib_compressBound
+#define CONTRACT_vb_zlib_compressBound
+#endif
+unsigned long vb_zlib_compressBound(unsigned long sourceLen)
+CONTRACT_vb_zlib_compressBound;
+#ifndef CONTRACT_vb_zlib_uncompress
+#define CONTRACT_vb_zlib_uncompress
+#endif
+int vb_zlib_uncompress(uint8_t *dest, unsigned long *destLen, const uint8_t *source, unsigned long sourceLen)
+CONTRACT_vb_zlib_uncompress;
+#ifndef CONTRACT_vb_zlib_compress2
+#define CONTRACT_vb_zlib_compress2
+#endif
+int vb_zlib_compress2(uint8_t *dest, unsigned long *destLen, const uint8_t *source, unsigned long sourceLen, int level)
+CONTRACT_vb_zlib_compress2;
 
 #endif
